@@ -425,6 +425,14 @@ impl<'a> Rw<'a> {
             "vec" => {
                 // R17: `vec![a, b, ..]` -> `{ let mut __v = Vec::new(); __v.push(a); ..; __v }`  (list form only)
                 if mac.tokens.to_string().contains(';') && self.render_tokens_as_exprs(&mac.tokens).is_none() {
+                    // R17b: `vec![x; n]` -> `vec_from_elem_(x, n)`, the overlay's model of the repeat form (n copies of x; ASSUMED std contract)
+                    let parser = Punctuated::<Expr, Token![;]>::parse_separated_nonempty;
+                    if let Ok(p) = syn::parse::Parser::parse2(parser, mac.tokens.clone()) {
+                        if p.len() == 2 {
+                            self.count("R17");
+                            return Some(format!("vec_from_elem_({}, {})", self.render_expr(&p[0]), self.render_expr(&p[1])));
+                        }
+                    }
                     self.err("unsupported-construct", "vec![x; n] in body".into());
                     return None;
                 }
@@ -851,8 +859,8 @@ impl<'a, 'b, 'ast> Visit<'ast> for Collector<'a, 'b> {
                 let sp = e.span().byte_range();
                 self.edits.push((sp.start, sp.end, text));
             }
-            Expr::MethodCall(c) if !rw.iter_model.is_empty() && c.method == "iter" && c.args.is_empty() && { let mut v = vec![]; Rw::leaf_names(&c.receiver, &mut v); v.last().map(|n| rw.iter_model.contains(n)).unwrap_or(false) } => {
-                // R22 (option iter_model=<names>): `X.iter()` on a Vec / array whose last path segment is listed -> `viter_(&X)`,
+            Expr::MethodCall(c) if !rw.iter_model.is_empty() && c.method == "iter" && c.args.is_empty() && { let mut v = vec![]; let mut r = &*c.receiver; while let Expr::Index(ix) = r { r = &ix.expr; } Rw::leaf_names(r, &mut v); v.last().map(|n| rw.iter_model.contains(n)).unwrap_or(false) } => {
+                // R22 (option iter_model=<names>): `X.iter()` on a Vec / array whose last path segment is listed (also `X[i].iter()`) -> `viter_(&X)`,
                 //   the overlay's iterator model of slice iteration (ghost element sequence + position; `enumerate` is a method of the model)
                 // a place expression is borrowed (auto-ref of the method call); a call result is already the reference
                 let amp = if matches!(&*c.receiver, Expr::MethodCall(_) | Expr::Call(_)) { "" } else { "&" };
@@ -893,6 +901,33 @@ impl<'a, 'b, 'ast> Visit<'ast> for Collector<'a, 'b> {
                         self.edits.push((sp.start, sp.end, text));
                     }
                 } }
+            }
+            Expr::MethodCall(c) if rw.for_iter && c.method == "next" && c.args.is_empty() && matches!(&*c.receiver, Expr::MethodCall(sb) if sb.method == "sorted_by" && sb.args.len() == 1 && matches!(&sb.args[0], Expr::Closure(cc) if cc.inputs.len() == 2) && matches!(&*sb.receiver, Expr::MethodCall(m) if m.method == "filter" && m.args.len() == 1 && matches!(&m.args[0], Expr::Closure(cl) if cl.inputs.len() == 1) && { let mut r = &*m.receiver; while let Expr::Paren(p) = r { r = &p.expr; } matches!(r, Expr::Range(rg) if rg.start.is_some() && rg.end.is_some() && matches!(rg.limits, syn::RangeLimits::HalfOpen(_))) })) => {
+                // R31 (option for_iter=1): `(lo..hi).filter(|&j| B).sorted_by(|&a, &b| C).next()` -> the selection loop for the element a stable
+                //   sort puts first (the first minimal one, for a comparator that is a total preorder):
+                //   `{ let mut k = lo; let mut best = None; while k < hi { let j = k; k += 1; if B { best = match best { None => Some(j),
+                //       Some(b0) => { let a = j; let b = b0; match C { Ordering::Less => Some(j), _ => Some(b0) } } }; } } best }`
+                if let Expr::MethodCall(sb) = &*c.receiver { if let (Expr::Closure(cc), Expr::MethodCall(m)) = (&sb.args[0], &*sb.receiver) { if let Expr::Closure(cl) = &m.args[0] {
+                    let mut r = &*m.receiver; while let Expr::Paren(p) = r { r = &p.expr; }
+                    if let Expr::Range(rg) = r {
+                        let idx = rw.loop_idx.get();
+                        rw.loop_idx.set(idx + 1);
+                        let a = e.span().byte_range().start;
+                        let b = cl.body.span().byte_range().start;
+                        rw.loop_headers.borrow_mut().push(rw.src[a..b].split_whitespace().collect::<Vec<_>>().join(" "));
+                        let (lo, hi) = (rw.render_expr(rg.start.as_ref().unwrap()), rw.render_expr(rg.end.as_ref().unwrap()));
+                        let pat = rw.src[cl.inputs[0].span().byte_range()].trim().trim_start_matches('&').trim().to_string();
+                        let p1 = rw.src[cc.inputs[0].span().byte_range()].trim().trim_start_matches('&').trim().to_string();
+                        let p2 = rw.src[cc.inputs[1].span().byte_range()].trim().trim_start_matches('&').trim().to_string();
+                        let body = rw.render_expr(&cl.body);
+                        let cmp = rw.render_expr(&cc.body);
+                        let inv = rw.section(&format!("loop {idx}")).map(|t| mark(t)).unwrap_or_default();
+                        let text = format!("({{ let mut __it{idx} = {lo}; let __hi{idx} = {hi}; let mut __best{idx}: Option<usize> = None;\nwhile __it{idx} < __hi{idx}\n{inv}\ndecreases __hi{idx} - __it{idx}, //@p\n{{ let {pat} = __it{idx}; __it{idx} += 1; if {body} {{ __best{idx} = match __best{idx} {{ None => Some({pat}), Some(__b0) => {{ let {p1} = {pat}; let {p2} = __b0; match {cmp} {{ core::cmp::Ordering::Less => Some({pat}), _ => Some(__b0) }} }} }}; }} }} __best{idx} }})");
+                        rw.count("R31");
+                        let sp = e.span().byte_range();
+                        self.edits.push((sp.start, sp.end, text));
+                    }
+                } } }
             }
             Expr::MethodCall(c) if rw.for_iter && c.method == "then" && c.args.len() == 1 && matches!(&c.args[0], Expr::Closure(cl) if cl.inputs.is_empty()) => {
                 // R26 (option for_iter=1): `b.then(|| E)` -> `if b { Some(E) } else { None }`  (bool::then, by definition)
@@ -1046,6 +1081,33 @@ impl<'a, 'b, 'ast> Visit<'ast> for Collector<'a, 'b> {
                 if let Expr::Tuple(t) = &*ix.index {
                     let text = format!("{}.at({}, {})", rw.render_expr(&ix.expr), rw.render_expr(&t.elems[0]), rw.render_expr(&t.elems[1]));
                     rw.count("R13");
+                    let sp = e.span().byte_range();
+                    self.edits.push((sp.start, sp.end, text));
+                }
+            }
+            Expr::While(w) if rw.for_iter && matches!(&*w.cond, Expr::Let(_)) => {
+                // R32 (option for_iter=1): `while let P = E { B }` -> the desugaring the language defines,
+                //   `loop { match E { P => { B } _ => { break; } } }`
+                if let Expr::Let(l) = &*w.cond {
+                    self.record_header(e, &w.body);
+                    let idx = rw.loop_idx.get();
+                    rw.loop_idx.set(idx + 1);
+                    let scrut = rw.render_expr(&l.expr);
+                    let (pat, binds) = deref_pats(&rw.src[l.pat.span().byte_range()]);
+                    let inv = rw.section(&format!("loop {idx}")).map(|t| mark(t)).unwrap_or_default();
+                    let mut c = Collector { rw, edits: vec![] };
+                    for st in &w.body.stmts { c.visit_stmt(st); }
+                    let br = w.body.span().byte_range();
+                    let inner = apply_edits(rw.src, (br.start + 1)..(br.end - 1), c.edits);
+                    let begin = rw.section(&format!("loop {idx} begin")).map(|t| format!("proof {{ //@p\n{}\n}} //@p\n", mark(t))).unwrap_or_default();
+                    let end = rw.section(&format!("loop {idx} end")).map(|t| format!("proof {{ //@p\n{}\n}} //@p\n", mark(t))).unwrap_or_default();
+                    let after = rw.section(&format!("loop {idx} after")).map(|t| format!("proof {{ //@p\n{}\n}} //@p\n", mark(t))).unwrap_or_default();
+                    let begin = format!("{}{}", rw.section(&format!("loop {idx} begin-raw")).map(|t| format!("{}\n", mark(t))).unwrap_or_default(), begin);
+                    let before = rw.section(&format!("loop {idx} before")).map(|t| format!("proof {{ //@p\n{}\n}} //@p\n", mark(t))).unwrap_or_default();
+                    // "pre-raw": ghost snapshots taken at the top of each iteration, before the scrutinee is evaluated
+                    let top = rw.section(&format!("loop {idx} top-raw")).map(|t| format!("{}\n", mark(t))).unwrap_or_default();
+                    let text = format!("(); {{ {before}loop\n{inv}\n{{ {top}match {scrut} {{ {pat} => {{ {binds}\n{begin}{{ {inner} }}\n{end} }} _ => {{ break; }} }} }}\n{after} }}");
+                    rw.count("R32");
                     let sp = e.span().byte_range();
                     self.edits.push((sp.start, sp.end, text));
                 }
